@@ -4,6 +4,60 @@ import Cellml.C09.Closure
 
 namespace C09
 
+/-! ## `sorted(…, key=str)` -/
+
+theorem insertStr_perm (key : Node → String) (x : Node) : ∀ l : List Node, (insertStr key x l).Perm (x :: l)
+  | [] => List.Perm.refl _
+  | y :: ys => by
+      unfold insertStr
+      split
+      · exact ((insertStr_perm key x ys).cons y).trans (List.Perm.swap x y ys)
+      · exact List.Perm.refl _
+
+theorem sortStr_perm (key : Node → String) : ∀ l : List Node, (sortStr key l).Perm l
+  | [] => List.Perm.refl _
+  | x :: xs => (insertStr_perm key x (sortStr key xs)).trans ((sortStr_perm key xs).cons x)
+
+theorem mem_sortStr {key : Node → String} {l : List Node} {a : Node} : a ∈ sortStr key l ↔ a ∈ l :=
+  (sortStr_perm key l).mem_iff
+
+theorem insertStr_sorted (key : Node → String) (x : Node) : ∀ l : List Node,
+    l.Pairwise (fun a b => key a ≤ key b) → (insertStr key x l).Pairwise (fun a b => key a ≤ key b)
+  | [], _ => List.pairwise_singleton _ _
+  | y :: ys, h => by
+      unfold insertStr
+      have hy := List.pairwise_cons.mp h
+      split
+      · rename_i hyx
+        refine List.Pairwise.cons ?_ (insertStr_sorted key x ys hy.2)
+        intro b hb
+        rcases List.mem_cons.mp ((insertStr_perm key x ys).mem_iff.mp hb) with rfl | hb
+        · exact String.not_lt.mp (String.lt_asymm hyx)
+        · exact hy.1 b hb
+      · rename_i hyx
+        have hxy : key x ≤ key y := String.not_lt.mp hyx
+        refine List.Pairwise.cons ?_ h
+        intro b hb
+        rcases List.mem_cons.mp hb with rfl | hb
+        · exact hxy
+        · exact String.le_trans hxy (hy.1 b hb)
+
+/-- the result is sorted: keys non-decreasing -/
+theorem sortStr_sorted (key : Node → String) : ∀ l : List Node, (sortStr key l).Pairwise (fun a b => key a ≤ key b)
+  | [] => List.Pairwise.nil
+  | x :: xs => insertStr_sorted key x _ (sortStr_sorted key xs)
+
+/-- **Sorting by pairwise distinct `str` keys gives a list that depends only on the SET**: two lists with the same
+    elements (two iteration orders of one Python set) sort to the same list. -/
+theorem sortStr_eq_of_perm (key : Node → String) {l₁ l₂ : List Node} (hp : l₁.Perm l₂)
+    (hinj : ∀ a ∈ l₁, ∀ b ∈ l₁, key a = key b → a = b) : sortStr key l₁ = sortStr key l₂ := by
+  apply List.Perm.eq_of_pairwise (le := fun a b => key a ≤ key b)
+  · intro a b ha hb hab hba
+    exact hinj a (mem_sortStr.mp ha) b (hp.mem_iff.mpr (mem_sortStr.mp hb)) (String.le_antisymm hab hba)
+  · exact sortStr_sorted key l₁
+  · exact sortStr_sorted key l₂
+  · exact (sortStr_perm key l₁).trans (hp.trans (sortStr_perm key l₂).symm)
+
 theorem hasEq_iff {eqs : List Eqn} {v : Node} : hasEq eqs v = true ↔ v ∈ eqs.map (·.lhs) := by
   simp only [hasEq, List.any_eq_true, List.mem_map, beq_iff_eq]
 
@@ -168,8 +222,8 @@ structure EqsSpec (sf : Node → Bool) (es : List Eqn) (g g' : Graph) : Prop whe
   nodup : g.nodes.Nodup → g'.nodes.Nodup
   refs : ∀ e ∈ es, ∀ r ∈ e.refs, r ∈ g'.nodes
 
-theorem addEqs_spec (sf : Node → Bool) : ∀ (es : List Eqn) (g g' : Graph),
-    addEqs sf es g = .ok g' → EqsSpec sf es g g'
+theorem addEqs_spec (key : Node → String) (sf : Node → Bool) : ∀ (es : List Eqn) (g g' : Graph),
+    addEqs key sf es g = .ok g' → EqsSpec sf es g g'
   | [], g, g', h => by
       simp only [addEqs, Except.ok.injEq] at h; subst h
       exact ⟨by simp, by simp, id, by simp⟩
@@ -178,8 +232,11 @@ theorem addEqs_spec (sf : Node → Bool) : ∀ (es : List Eqn) (g g' : Graph),
       split at h
       · simp at h
       · rename_i g1 hg1
-        have s1 := addRefs_spec sf e.lhs e.refs g g1 hg1
-        have ih := addEqs_spec sf es _ g' h
+        have s0 := addRefs_spec sf e.lhs (sortStr key e.refs) g g1 hg1
+        have s1 : RefsSpec sf e.lhs e.refs g g1 :=
+          ⟨fun x => by rw [s0.nodes, mem_sortStr], fun ed => by rw [s0.edges, mem_sortStr], s0.nodup,
+           fun r hr => s0.refs r (mem_sortStr.mpr hr)⟩
+        have ih := addEqs_spec key sf es _ g' h
         have hmono : ∀ x, x ∈ g1.nodes → x ∈ g'.nodes := fun x hx =>
           (ih.nodes x).mpr (Or.inl (mem_addOde_nodes.mpr (Or.inl hx)))
         refine ⟨?_, ?_, ?_, ?_⟩
@@ -216,16 +273,16 @@ theorem addEqs_spec (sf : Node → Bool) : ∀ (es : List Eqn) (g g' : Graph),
           · exact hmono r (s1.refs r hr)
           · exact ih.refs e' he' r hr
 
-theorem addEqs_ok (sf : Node → Bool) : ∀ (es : List Eqn) (g : Graph) (base : List Node),
+theorem addEqs_ok (key : Node → String) (sf : Node → Bool) : ∀ (es : List Eqn) (g : Graph) (base : List Node),
     (∀ x ∈ base, x ∈ g.nodes) →
-    (∀ e ∈ es, ∀ r ∈ e.refs, r ∈ base ∨ sf r = true) → ∃ g', addEqs sf es g = .ok g'
+    (∀ e ∈ es, ∀ r ∈ e.refs, r ∈ base ∨ sf r = true) → ∃ g', addEqs key sf es g = .ok g'
   | [], g, _, _, _ => ⟨g, rfl⟩
   | e :: es, g, base, hb, h => by
       simp only [addEqs]
-      obtain ⟨g1, hg1, hsub⟩ := addRefs_ok sf e.lhs e.refs g
-        (fun r hr => (h e (by simp) r hr).imp (hb r) id)
+      obtain ⟨g1, hg1, hsub⟩ := addRefs_ok sf e.lhs (sortStr key e.refs) g
+        (fun r hr => (h e (by simp) r (mem_sortStr.mp hr)).imp (hb r) id)
       rw [hg1]
-      exact addEqs_ok sf es (addOde e.ode g1) base
+      exact addEqs_ok key sf es (addOde e.ode g1) base
         (fun x hx => mem_addOde_nodes.mpr (Or.inl (hsub x (hb x hx))))
         (fun e' he' => h e' (List.mem_cons_of_mem _ he'))
 
@@ -253,7 +310,7 @@ theorem buildGraph_valid {key : Node → String} {eqs : List Eqn} {g : Graph} (h
     · rename_i h2
       have h1' : (eqs.map (·.lhs)).Nodup := Classical.not_not.mp h1
       have h2' : ((eqs.map (·.lhs)).map key).Nodup := Classical.not_not.mp h2
-      have sp := addEqs_spec (isStateOrFree eqs) eqs _ g h
+      have sp := addEqs_spec key (isStateOrFree eqs) eqs _ g h
       have hnodes : ∀ x, x ∈ g.nodes ↔ hasEq eqs x = true ∨ isStateOrFree eqs x = true := by
         intro x
         rw [sp.nodes, hasEq_iff, isStateOrFree_iff]
@@ -285,8 +342,45 @@ theorem buildGraph_valid {key : Node → String} {eqs : List Eqn} {g : Graph} (h
 theorem buildGraph_ok {key : Node → String} {eqs : List Eqn} (hv : Valid key eqs) :
     ∃ g, buildGraph key eqs = .ok g := by
   simp only [buildGraph, hv.lhsNodup, hv.keyNodup, not_true_eq_false, if_false]
-  exact addEqs_ok (isStateOrFree eqs) eqs _ (eqs.map (·.lhs)) (fun _ h => h)
+  exact addEqs_ok key (isStateOrFree eqs) eqs _ (eqs.map (·.lhs)) (fun _ h => h)
     (fun e he r hr => (hv.refsOk e he r hr).imp (fun h => hasEq_iff.mp h) id)
+
+/-! ## The graph is a function of the left-hand sides, the ODE pairs and the SORTED references -/
+
+/-- two spellings of one equation: same left-hand side, same ODE pair, and the references — in whatever order the
+    set handed them out — sort to the same list -/
+def SameSorted (key : Node → String) (e e' : Eqn) : Prop :=
+  e'.lhs = e.lhs ∧ e'.ode = e.ode ∧ sortStr key e'.refs = sortStr key e.refs
+
+theorem addEqs_congr (key : Node → String) (sf : Node → Bool) {α : Type} (f f' : α → Eqn) :
+    ∀ (l : List α) (g : Graph), (∀ a ∈ l, SameSorted key (f a) (f' a)) →
+      addEqs key sf (l.map f') g = addEqs key sf (l.map f) g
+  | [], _, _ => rfl
+  | a :: l, g, h => by
+      obtain ⟨h1, h2, h3⟩ := h a (by simp)
+      simp only [List.map_cons, addEqs, h1, h2, h3]
+      cases addRefs sf (f a).lhs (sortStr key (f a).refs) g with
+      | error x => rfl
+      | ok g1 => exact addEqs_congr key sf f f' l _ (fun b hb => h b (List.mem_cons_of_mem _ hb))
+
+theorem isStateOrFree_congr {α : Type} (f f' : α → Eqn) (v : Node) :
+    ∀ (l : List α), (∀ a ∈ l, (f' a).ode = (f a).ode) → isStateOrFree (l.map f') v = isStateOrFree (l.map f) v
+  | [], _ => rfl
+  | a :: l, h => by
+      have ih := isStateOrFree_congr f f' v l (fun b hb => h b (List.mem_cons_of_mem _ hb))
+      simp only [isStateOrFree] at ih ⊢
+      simp only [List.map_cons, List.any_cons, h a (by simp), ih]
+
+/-- **`Model.graph` — node LIST and edge LIST, or the refusal — is the same for two spellings of a system that differ
+    only in the order in which the reference sets were handed out.** -/
+theorem buildGraph_congr (key : Node → String) {α : Type} (f f' : α → Eqn) (l : List α)
+    (h : ∀ a ∈ l, SameSorted key (f a) (f' a)) : buildGraph key (l.map f') = buildGraph key (l.map f) := by
+  have hl : (l.map f').map (·.lhs) = (l.map f).map (·.lhs) := by
+    simp only [List.map_map]
+    exact List.map_congr_left (fun a ha => (h a ha).1)
+  have hsf : isStateOrFree (l.map f') = isStateOrFree (l.map f) :=
+    funext fun v => isStateOrFree_congr f f' v l (fun a ha => (h a ha).2.1)
+  simp only [buildGraph, hl, hsf, addEqs_congr key _ f f' l _ h]
 
 /-! ## `graph_with_sympy_numbers` -/
 
